@@ -230,7 +230,16 @@ def accuracy_case(sp, rng, nrng):
     bat = rng.choice([[], [], [2], [1, 3]])
     npts = rng.randint(1, 40)
     kind = rng.choice(KINDS)
-    setting = rng.choice([(1.25, 4, 3e-2), (1.25, 4, 3e-2), (2, 4, 3e-3)])
+    if rng.random() < 0.6:
+        setting = rng.choice([(1.25, 4, 3e-2), (1.25, 4, 3e-2), (2, 4, 3e-3)])
+    else:
+        # the whole advertised range oversamp in [1.25, 2], width in [3, 6] incl. odd and fractional widths.  The Kaiser-Bessel
+        # error decreases in both parameters, so the stated bounds (3 % at (1.25, 4), 0.3 % at (2, 4)) carry over to every
+        # larger width / oversampling; below width 4 the statement gives no number and only the exact parts are judged
+        # (shape, periodicity, adjoint dot test).
+        os_ = rng.choice([1.25, 1.5, 2, round(rng.uniform(1.25, 2), 2)])
+        w = rng.choice([3, 3.5, 4.5, 5, 5.5, 6, 5, 3])
+        setting = (os_, w, (3e-3 if os_ >= 2 else 3e-2) if w >= 4 else None)
     coord = gen_coord(rng, nrng, shape, npts, kind)
     x = crandn(nrng, bat + shape)
     return dict(shape=shape, bat=bat, kind=kind, oversamp=setting[0], width=setting[1], tol=setting[2], coord=coord, x=x)
@@ -279,7 +288,8 @@ def eval_accuracy(sp, c):
 
 
 def limits(c):
-    return {"accuracy": c["tol"], "adjoint-accuracy": c["tol"], "periodic": 1e-6, "periodic-tie": c["tol"], "dot": 1e-5}
+    tol = c["tol"] if c["tol"] is not None else float("inf")      # width < 4: no accuracy number in the statement
+    return {"accuracy": tol, "adjoint-accuracy": tol, "periodic": 1e-6, "periodic-tie": tol, "dot": 1e-5}
 
 
 def ser(c):
@@ -369,15 +379,16 @@ def run(ctx):
         except Exception as e:
             bad.setdefault("exception:nufft", ("nufft raised %r on a valid input" % e, {"kind": "impl-exception", "case": ser(c), "error": repr(e)}))
             continue
-        cls = "nudft:%dD:os%s:%s" % (len(c["shape"]), c["oversamp"], c["kind"])
+        osb = ("%s" % c["oversamp"] if c["oversamp"] in (1.25, 1.5, 2) else "other") + ("" if c["width"] == 4 else ":w<4" if c["width"] < 4 else ":w>4")
+        cls = "nudft:%dD:os%s:%s" % (len(c["shape"]), osb, c["kind"])
         ctx.count(cls, key=json.dumps([c["shape"], c["bat"], c["kind"], c["oversamp"], c["coord"].shape]) + str(_), nontrivial=True,
                   sample={k: c[k] for k in ("shape", "bat", "kind", "oversamp", "width")})
         lim = limits(c)
         if r["tie"]:
             ctx.coverage["periodic_checked_at_accuracy_level_because_of_window_ties"] = ctx.coverage.get("periodic_checked_at_accuracy_level_because_of_window_ties", 0) + 1
-        worst["accuracy-vs-output:os%s" % c["oversamp"]] = max(worst.get("accuracy-vs-output:os%s" % c["oversamp"], 0.0), r["accuracy-vs-output"])
+        worst["accuracy-vs-output:os%s" % osb] = max(worst.get("accuracy-vs-output:os%s" % osb, 0.0), r["accuracy-vs-output"])
         for name in ("accuracy", "adjoint-accuracy", "periodic", "periodic-tie", "dot"):
-            key = "%s:os%s" % (name, c["oversamp"])
+            key = "%s:os%s" % (name, osb)
             worst[key] = max(worst.get(key, 0.0), r[name])
             if not (r[name] <= lim[name]):
                 bad.setdefault("oracle:" + key, ("nufft %s error %.3g exceeds %.3g (%s, shape %s)" % (name, r[name], lim[name], c["kind"], c["bat"] + c["shape"]),
@@ -405,7 +416,7 @@ def run(ctx):
     ctx.coverage["rule"] = ("parameter cases: random shapes/oversampling/width for _get_oversamp_shape, _scale_coord, beta (captured from the call into interp), "
                             "_apodize factors; step cases: 1-2-D, N <= 8 per axis, <= 12 points, optional batch axis and 2-D point sets, oversamp 1.25/1.5/2, "
                             "width 2.5-6, complex128 (1e-6) and complex64 (1e-4); validation: explicit NUDFT for random / on-grid / half-integer / clustered / "
-                            "out-of-range coordinates, 1-3-D, odd and even sizes, batch axes, at (1.25, 4) < 3e-2 and (2, 4) < 3e-3, periodicity 1e-6, "
+                            "out-of-range coordinates, 1-3-D, odd and even sizes, batch axes, at (1.25, 4) < 3e-2 and (2, 4) < 3e-3 and the same bounds for every larger width/oversampling in [1.25,2]x[4,6] (odd and fractional widths included), widths 3-3.5 judged on the exact parts only, periodicity 1e-6, "
                             "dot test 1e-5, Toeplitz normal 5e-2 on square and non-square grids; non-trivial = non-zero output")
     for k, (what, rep) in bad.items():
         ctx.violation("C06: " + what, rep, signature="C06:" + ":".join(k.split(":")[:2]))
